@@ -727,8 +727,19 @@ def prove_removal_clears_path(src_root, ex: Explorer):
     ex.run(helper, 'removal-helper')
 
 
+def prove_one_attempt_relies(src_root, ex: Explorer):
+    """Two attempts of the SAME download must not run at once either (both would append to the one local path): a second
+    PeerTransferRequest while the first initialisation is in flight starts nothing (C06.slot-free#_on_peer_transfer_request), discharged
+    here as well."""
+    from contracts import C06
+    C06.prove_transfer_request_site(src_root, ex)
+    for ob in ex.obligations:
+        if ob.name.startswith('C06.'):
+            ob.name = 'C09.one-attempt-per-path.' + ob.name[4:]
+
+
 def items(src_root, tier):
-    return [('removal', None), ('requeue', None), ('split', None), ('strategies', None), ('chain', None), ('path', None), ('window', None)]
+    return [('one-attempt', None), ('removal', None), ('requeue', None), ('split', None), ('strategies', None), ('chain', None), ('path', None), ('window', None)]
 
 
 def run_item(src_root, item, tier):
@@ -737,7 +748,7 @@ def run_item(src_root, item, tier):
     kind, arg = item
     try:
         {'split': prove_split, 'strategies': prove_strategies, 'chain': prove_chain, 'path': prove_download_path, 'window': prove_window,
-         'requeue': prove_requeue_clears_path, 'removal': prove_removal_clears_path}[kind](src_root, ex)
+         'requeue': prove_requeue_clears_path, 'removal': prove_removal_clears_path, 'one-attempt': prove_one_attempt_relies}[kind](src_root, ex)
     except Unsupported as e:
         res.errors.append(f'{kind}: unsupported: {e}')
     collect(res, ex)
